@@ -123,6 +123,18 @@ static SPECS: &[PropertySpec] = &[
         assumptions: &["callers never set Host/Connection/Content-Length/Transfer-Encoding/Accept-Encoding themselves", "bearer tokens contain no control characters", "part order of multipart bodies is not demanded"],
     },
     PropertySpec {
+        id: "C08",
+        scenario: props::c08::scenario,
+        level: "exploration",
+        rule: "URLs: http/https x domain (also upper-case) / IPv4 / IPv6 host x default (implicit or explicit) / non-default port x empty/plain/percent-encoded/non-ASCII path x query forms x fragment x userinfo; world: no proxy / http proxy / https proxy (with or without proxy credentials), giving direct, forward-proxy (absolute-form, also inside TLS to an https proxy) and CONNECT-tunnel routes with TLS peers so that the inner request is observed in clear; observed: address handed to connect, request target, Host; distinct = (route, host form, port class, path/query/fragment/userinfo classes, proxy credentials); all runs non-trivial",
+        quick_runs: 4000,
+        matrix_cells: 0,
+        thorough_runs: 200_000,
+        real_components: TLS_REAL,
+        stubbed_components: STUB,
+        assumptions: &["the Host value on the http-via-proxy leg is not demanded", "TLS authentication is waived here (danger_accept_invalid_certs) - it is C14's subject", "https to an IPv6 literal may fail in the handshake: only the dial is judged there"],
+    },
+    PropertySpec {
         id: "C09",
         scenario: props::c09::scenario,
         level: "exploration",
@@ -157,6 +169,18 @@ static SPECS: &[PropertySpec] = &[
         real_components: REAL,
         stubbed_components: STUB,
         assumptions: &["a lower-case variable that is present but ignorable next to a usable upper-case one, and '*' as an element of a longer list, are not decided by the statement (don't-care)", "builder entries never carry a leading dot (the statement defines dot-stripping for the environment only)"],
+    },
+    PropertySpec {
+        id: "C12",
+        scenario: props::c12::scenario,
+        level: "exploration",
+        rule: "https URL (domain / IPv4 / IPv6 origin, default or explicit port) behind an http or https proxy whose URL has no / user-only / user:password credentials; the proxy's CONNECT reply is drawn: status 100..599, head valid / truncated at any offset / garbage, refusal body empty .. 10 KiB+-1 .. 'endless', delayed 0..40 ms, under segmentation, ending with FIN / RST / silence; the request carries Authorization, a marker header and a marker body; name-confusion variant (proxy named like the only name on the origin's certificate); oracles over the recorded write/deliver order of the proxy connection, the proxy's plaintext log, the TLS peers' logs and ErrorKind::ConnectError; distinct = (proxy kind, reply class, origin form, port, credentials, ending, body class, certificate, segmentation); all runs non-trivial",
+        quick_runs: 3000,
+        matrix_cells: 0,
+        thorough_runs: 150_000,
+        real_components: TLS_REAL,
+        stubbed_components: STUB,
+        assumptions: &["proxy URL credentials use unreserved characters only (percent-decoding policy is not stated)", "when the proxy URL has no credentials both an absent Proxy-Authorization and the encoding of empty credentials are accepted", "TLS success for IPv6-literal origins is not demanded", "default (native-tls) build"],
     },
     PropertySpec {
         id: "C13",
